@@ -152,8 +152,7 @@ def execute(case):
 
                     mods = [m for m in sess.mods() if type(m).__name__ != "Output"]
                     m = mods[op["synth"] % len(mods)]
-                    m2 = m.clone()
-                    obj = Synth(m2)
+                    obj = Synth(m)  # the live module itself, not a (normalising) clone
                 label = "built:%s" % op["seed"]
                 x_links = "consistent"
                 built = True
